@@ -1,6 +1,6 @@
 SPECIFICATION Spec
 CONSTANTS
- Instances <- MCInstances
+ Instances <- MCDeep
  MaxFail = 7
  Dev <- NoDev
 INVARIANT TypeOK
